@@ -56,7 +56,7 @@ def bounded_unitary(which):
     pr = get('prysm.propagation')
     ft = get('prysm.fttools')
     m, n = int(rng.integers(1, 9)), int(rng.integers(1, 9))
-    f = rng.standard_normal((m, n)) + 1j * rng.standard_normal((m, n))
+    f = vary_layout(rng, rng.standard_normal((m, n)) + 1j * rng.standard_normal((m, n)))      # any memory layout
     E = lambda a: float((abs(a) ** 2).sum())
     if which == 'focus-unfocus':
         for Q in (1, 2, 3):
